@@ -329,6 +329,195 @@ def check_length_fields(ctx, db):
     ctx.require('R-AGG/R-SIGN element length fields', n, 10)
 
 
+def norm(t):
+    return re.sub(r'<[A-Za-z]+:(?!:)[^>]*>', '', t).replace('gdstk::', '')
+
+
+def check_affine_algebra(ctx, db):
+    """Polynomial identities (sa/symdiff.py, trigonometric expansion) against the DEFINITION of the maps
+       T(q)   = t + M R(b) diag(1, g) q           (magnify, reflect across x, rotate, translate)
+       P(p)   = o + m R(a) diag(1, f) p           (a reference / label placement)
+    1. the point maps of Polygon::transform, FlexPath::transform (spine) and Reference::repeat_and_transform are T;
+    2. Reference::transform and Label::transform update (origin, rotation, magnification, x_reflection) so that the
+       new placement is T o P for every combination of the two reflection flags."""
+    from .. import symdiff as S
+
+    def T(alg, q, M, g, C, Sn, t):
+        x, y = q[1], S.mul(q[2], S.P(g))
+        return alg.vec(S.add(t[1], S.mul(M, S.add(S.mul(C, x), S.mul(Sn, y), -1))), S.add(t[2], S.mul(M, S.add(S.mul(Sn, x), S.mul(C, y)))))
+    n = 0
+    # ---- 1. point maps
+    for qn, pvar in (('gdstk::Polygon::transform', 'p'), ('gdstk::FlexPath::transform', 'p')):
+        f = db.fn(qn)
+        ctx.touch(f)
+        loop = next((l for l in f.walk() if l.k == 'ForStmt'), None)
+        pre = [s_ for s_ in f.body.c if s_ is not None and s_.id < loop.id and s_.k == 'DeclStmt' and not any('*' in (v.t or '') for v in s_.c if v is not None)]
+        for g in (1, -1):
+            alg = S.Algebra(db, None)
+
+            class A2(type(alg)):
+                pass
+            env = {'x_reflection': S.P(1 if g == -1 else 0)}
+            px, py = S.atom('px'), S.atom('py')
+            try:
+                alg.block(pre, env, None)
+                env['*' + pvar] = alg.vec(px, py)
+                body = [s_ for s_ in loop.child('body').c if s_ is not None]
+                out = run_point_block(alg, body, env, pvar)
+            except S.Unsupported as e:
+                raise AnalysisBroken('%s point map is outside the algebra: %s' % (qn, e))
+            C_, Sn = alg.fatom('cos', S.atom('rotation')), alg.fatom('sin', S.atom('rotation'))
+            want = T(alg, alg.vec(px, py), S.atom('magnification'), g, C_, Sn, alg.vec(S.atom('origin.x'), S.atom('origin.y')))
+            n += 1
+            ctx.check(out is not None and alg.equal(out, want), 'R-ALGEBRA', '%s/point-map|reflection=%s' % (qn.replace('gdstk::', ''), g == -1), loop.loc(), 'every point is mapped by origin + m R(rotation) diag(1, %+d) p' % g,
+                      'the point map is %s, the documented map gives %s' % (alg.render(out) if out is not None else 'unset', alg.render(want)))
+    f = db.fn('gdstk::Reference::repeat_and_transform')
+    ctx.touch(f)
+    inner = next((l for l in f.walk() if l.k == 'ForStmt' and any(v.k == 'VarDecl' and v.n == 'q' for v in l.walk()) and not any(x.k == 'ForStmt' and x is not l for x in l.child('body').walk())), None)
+    if inner is None:
+        raise AnalysisBroken('Reference::repeat_and_transform: per-point loop not found')
+    pre = [s_ for s_ in f.body.c if s_ is not None and s_.k == 'DeclStmt' and s_.id < inner.id and all(v is None or (re.search(r'double', v.t or '') and '*' not in (v.t or '')) for v in s_.c)]
+    for g in (1, -1):
+        alg = S.Algebra(db, None)
+        env = {'x_reflection': S.P(1 if g == -1 else 0)}
+        px, py = S.atom('px'), S.atom('py')
+        try:
+            alg.block(pre, env, None)
+            env['*p'] = alg.vec(px, py)
+            env['*off'] = alg.vec(S.atom('offx'), S.atom('offy'))
+            out = run_point_block(alg, [s_ for s_ in inner.child('body').c if s_ is not None], env, 'p')
+        except S.Unsupported as e:
+            raise AnalysisBroken('Reference::repeat_and_transform point map is outside the algebra: %s' % e)
+        C_, Sn = alg.fatom('cos', S.atom('rotation')), alg.fatom('sin', S.atom('rotation'))
+        want = T(alg, alg.vec(px, py), S.atom('magnification'), g, C_, Sn, alg.vec(S.add(S.atom('origin.x'), S.atom('offx')), S.add(S.atom('origin.y'), S.atom('offy'))))
+        n += 1
+        ctx.check(out is not None and alg.equal(out, want), 'R-ALGEBRA', 'Reference::repeat_and_transform/point-map|reflection=%s' % (g == -1), inner.loc(), 'every point of the referenced geometry is mapped by origin + offset + m R(rotation) diag(1, %+d) p' % g,
+                  'the point map is %s, the documented map gives %s' % (alg.render(out) if out is not None else 'unset', alg.render(want)))
+    # ---- 2. placement composition
+    for qn in ('gdstk::Reference::transform', 'gdstk::Label::transform'):
+        f = db.fn(qn)
+        ctx.touch(f)
+        for g in (1, -1):
+            for fl in (1, -1):
+                alg = S.Algebra(db, None)
+                env = {'x_refl': S.P(1 if g == -1 else 0), 'x_reflection': S.P(1 if fl == -1 else 0), 'origin': alg.vec(S.atom('ox'), S.atom('oy')), 'rotation': S.atom('a'), 'magnification': S.atom('m'),
+                       'orig': alg.vec(S.atom('tx'), S.atom('ty')), 'rot': S.atom('b'), 'mag': S.atom('M')}
+                try:
+                    for s_ in f.body.c:
+                        if s_ is None:
+                            continue
+                        if s_.k == 'CompoundAssignOperator' and s_.op == '^=':
+                            l = _strip_casts(s_.child('lhs'))
+                            a_, b_ = env[l.n], alg.value(s_.child('rhs'), env)
+                            if not (S.is_const(a_) and S.is_const(b_)):
+                                raise S.Unsupported('xor of symbolic values')
+                            env[l.n] = S.P(1 if bool(a_) != bool(b_) else 0)
+                            continue
+                        if s_.k == 'CompoundAssignOperator' and s_.op == '*=':
+                            l = _strip_casts(s_.child('lhs'))
+                            env[l.n] = alg.vmul(env[l.n], alg.value(s_.child('rhs'), env))
+                            continue
+                        if is_assign(s_) and _strip_casts(s_.child('lhs')).k == 'MemberExpr' and _strip_casts(s_.child('lhs')).n in ('x', 'y'):
+                            l = _strip_casts(s_.child('lhs'))
+                            cur = env['origin']
+                            val = alg.value(s_.child('rhs'), env)
+                            env['origin'] = alg.vec(val, cur[2]) if l.n == 'x' else alg.vec(cur[1], val)
+                            continue
+                        alg.block([s_], env, None)
+                except S.Unsupported as e:
+                    raise AnalysisBroken('%s is outside the algebra: %s' % (qn, e))
+                px, py = S.atom('px'), S.atom('py')
+                p = alg.vec(px, py)
+                zero = alg.vec(S.P(0), S.P(0))
+                # definition side: T(P_old(p))
+                Pold = T(alg, p, S.atom('m'), fl, alg.fatom('cos', S.atom('a')), alg.fatom('sin', S.atom('a')), alg.vec(S.atom('ox'), S.atom('oy')))
+                want = T(alg, Pold, S.atom('M'), g, alg.fatom('cos', S.atom('b')), alg.fatom('sin', S.atom('b')), alg.vec(S.atom('tx'), S.atom('ty')))
+                # code side: P_new(p) from the fields the function stored
+                a2 = env['rotation']
+                f2 = -1 if env['x_reflection'] else 1
+                got = T(alg, p, env['magnification'], f2, alg.fatom('cos', a2), alg.fatom('sin', a2), env['origin'])
+                n += 1
+                ok = alg.equal(alg.expand(got), alg.expand(want))
+                ctx.check(ok, 'R-ALGEBRA', '%s/composition|x_refl=%s,x_reflection=%s' % (qn.replace('gdstk::', ''), g == -1, fl == -1), f.loc(), 'the updated placement equals T o P identically (origin, rotation %s, magnification product, reflection xor)' % ('-a + b' if g == -1 else 'a + b'),
+                          'the updated placement maps p to %s, but T(P(p)) = %s' % (alg.render(alg.expand(got))[:260], alg.render(alg.expand(want))[:260]))
+        flip = [x for x in f.walk() if x.k == 'CompoundAssignOperator' and x.op == '^=' and norm(x.child('lhs').text()).endswith('x_reflection') and norm(x.child('rhs').text()) == 'x_refl']
+        ctx.check(len(flip) == 1, 'R-ALGEBRA', '%s/reflection-xor' % qn.replace('gdstk::', ''), f.loc(), 'x_reflection ^= x_refl')
+    ctx.require('R-ALGEBRA affine identities', n, 14)
+
+
+def run_point_block(alg, body, env, pvar):
+    """statements of a per-point loop body: locals, component stores through the cursor; returns the final element value"""
+    from .. import symdiff as S
+    key = '*' + pvar
+
+    class Shim:
+        pass
+    for s_ in body:
+        if s_.k == 'DeclStmt':
+            for v in s_.c:
+                if v is not None and v.k == 'VarDecl' and v.child('init') is not None:
+                    env[v.n] = val_with_cursor(alg, v.child('init'), env, pvar)
+        elif s_.k == 'IfStmt':
+            c = val_with_cursor(alg, s_.child('cond'), env, pvar)
+            if alg.isvec(c) or not S.is_const(c):
+                raise S.Unsupported('symbolic branch')
+            br = s_.child('then') if c else s_.child('else')
+            if br is not None:
+                run_point_block(alg, [br] if br.k != 'CompoundStmt' else [x for x in br.c if x is not None], env, pvar)
+        elif is_assign(s_) and s_.op == '=':
+            l = _strip_casts(s_.child('lhs'))
+            val = val_with_cursor(alg, s_.child('rhs'), env, pvar)
+            if l.k == 'MemberExpr' and l.n in ('x', 'y'):
+                b = _strip_casts(l.child('base'))
+                arrow = bool(l.arrow)
+                while b is not None and b.k == 'MemberExpr' and not b.n:
+                    arrow = arrow or bool(b.arrow)
+                    b = _strip_casts(b.child('base'))
+                tgt = (key if arrow else b.n) if b is not None and b.k == 'DeclRefExpr' else None
+                if tgt is None:
+                    raise S.Unsupported('store target')
+                cur = env.get(tgt + '#new') if tgt == key else env.get(tgt)
+                if tgt == key:
+                    cur = env.get(key + '#new') or alg.vec(S.P(0), S.P(0))
+                    env[key + '#new'] = alg.vec(val, cur[2]) if l.n == 'x' else alg.vec(cur[1], val)
+                else:
+                    env[tgt] = alg.vec(val, cur[2]) if l.n == 'x' else alg.vec(cur[1], val)
+            else:
+                raise S.Unsupported('assignment `%s`' % s_.text()[:40])
+        else:
+            raise S.Unsupported('statement %s' % s_.k)
+    return env.get(key + '#new')
+
+
+def val_with_cursor(alg, e, env, pvar):
+    """Algebra.value with `*c` / `c->x` resolved, for every cursor c that has an element value `*c` in env, to that
+    element (its ORIGINAL value: stores through the main cursor go to a shadow copy)."""
+    from .. import symdiff as S
+    orig_value = alg.value
+
+    def value(x, en):
+        x0 = _strip_casts(x)
+        if x0 is not None and x0.k == 'UnaryOperator' and x0.op == '*':
+            sub = _strip_casts(x0.child('sub'))
+            if sub.k == 'DeclRefExpr' and ('*' + sub.n) in en:
+                return en['*' + sub.n]
+        if x0 is not None and x0.k == 'MemberExpr' and x0.n in ('x', 'y'):
+            arrow = bool(x0.arrow)
+            b_ = _strip_casts(x0.child('base')) if x0.child('base') is not None else None
+            while b_ is not None and b_.k == 'MemberExpr' and not b_.n:
+                arrow = arrow or bool(b_.arrow)
+                b_ = _strip_casts(b_.child('base')) if b_.child('base') is not None else None
+            if arrow and b_ is not None and b_.k == 'DeclRefExpr' and ('*' + b_.n) in en:
+                v_ = en['*' + b_.n]
+                return v_[1] if x0.n == 'x' else v_[2]
+        return orig_value(x, en)
+    alg.value = value
+    try:
+        return value(e, env)
+    finally:
+        alg.value = orig_value
+
+
 def run(ctx):
     db = ctx.db
     check_point_maps(ctx, db)
@@ -336,6 +525,7 @@ def run(ctx):
     check_placement(ctx, db)
     check_signs(ctx, db)
     check_length_fields(ctx, db)
+    check_affine_algebra(ctx, db)
     # Repetition::transform (C10.5) — same obligations as C11
     C11.check_transform(ctx, db)
     C11.check_transform_algebra(ctx, db)
@@ -344,7 +534,7 @@ def run(ctx):
 
 
 MANIFEST = dict(
-    text='Decides structural necessary conditions of the documented affine maps: the point map (magnify, reflect y, rotate, translate) is the same normalised code in Polygon::transform, FlexPath::transform and Reference::repeat_and_transform with the rotation rows x cos - y sin / x sin + y cos; Polygon::{translate,scale,mirror,rotate} equal the spine parts of the FlexPath methods; Reference::transform == Label::transform and has the composition shape (r1 from the incoming reflection only; rotation = r1*rotation + rot; magnification *= mag; x_reflection ^= x_refl; origin from the captured old origin); by abstract interpretation over the sign domain for every sign/boolean valuation: offset factors keep their sign under magnification of either sign and flip exactly under reflection, width factors stay positive and are 1 unless scale_width, in FlexPath::scale/transform/mirror and RobustPath::simple_scale/mirror/x_reflection; RobustPath::transform is scale; reflect-if; rotate; translate; every length-valued field of the path element records (from the record layout: widths/offsets, end extensions, bend radius) is rescaled by scale/transform and the along-path lengths by the absolute factor; Repetition::transform depends on every non-neutral parameter for every kind and valuation and is, as a polynomial identity on all 40 (kind, valuation) paths, m R(rotation) diag(1, +-1). Numerical agreement of outlines is not decided.',
+    text='Decides structural necessary conditions of the documented affine maps: the point map (magnify, reflect y, rotate, translate) is the same normalised code in Polygon::transform, FlexPath::transform and Reference::repeat_and_transform with the rotation rows x cos - y sin / x sin + y cos; Polygon::{translate,scale,mirror,rotate} equal the spine parts of the FlexPath methods; Reference::transform == Label::transform and has the composition shape (r1 from the incoming reflection only; rotation = r1*rotation + rot; magnification *= mag; x_reflection ^= x_refl; origin from the captured old origin); by abstract interpretation over the sign domain for every sign/boolean valuation: offset factors keep their sign under magnification of either sign and flip exactly under reflection, width factors stay positive and are 1 unless scale_width, in FlexPath::scale/transform/mirror and RobustPath::simple_scale/mirror/x_reflection; RobustPath::transform is scale; reflect-if; rotate; translate; every length-valued field of the path element records (from the record layout: widths/offsets, end extensions, bend radius) is rescaled by scale/transform and the along-path lengths by the absolute factor; as polynomial identities with trigonometric expansion, the point maps of Polygon::transform, FlexPath::transform and Reference::repeat_and_transform are exactly t + m R(rotation) diag(1, +-1) p (plus the repetition offset), and Reference::transform / Label::transform store fields whose placement is exactly T o P for all four reflection combinations; Repetition::transform depends on every non-neutral parameter for every kind and valuation and is, as a polynomial identity on all 40 (kind, valuation) paths, m R(rotation) diag(1, +-1). Numerical agreement of outlines is not decided.',
     note='Trusted: clang front end, gx, sa rules (sa/signs.py interprets literals, unary minus, fabs, products, ternaries, Vec2 initialisers and component stores; anything else evaluates to unknown and fails the obligation). Reference strings for the origin map were confirmed by reading.',
-    technique='clone families over α-normalised ASTs + sign-domain abstract interpretation with exhaustive parameter-sign enumeration + predicate-atom path enumeration',
+    technique='polynomial identities with symbolic trigonometric expansion (sa/symdiff.py) + clone families over α-normalised ASTs + sign-domain abstract interpretation with exhaustive parameter-sign enumeration + predicate-atom path enumeration',
     design='§4 C10')
